@@ -1042,7 +1042,12 @@ class ParserField:
                     return unprovided
 
             discriminator = value.get(self.discriminator)
-            if discriminator in self.discriminator_map:
+            try:
+                matched = discriminator in self.discriminator_map
+            except TypeError:
+                # an unhashable discriminator value ({'kind': ['v']}) matches no type
+                matched = False
+            if matched:
                 type = self.discriminator_map[discriminator]
                 # directly assign type instead parse it in a Logical context
             else:
